@@ -139,6 +139,9 @@ func dupScalars(t *wire.Msg, r *rng.R) {
 				switch g.WT {
 				case wire.WTBytes:
 					g.B = r.Bytes(r.Intn(6))
+					if level == 2 && g.Num == 1 && len(g.B) == 0 {
+						g.B = []byte{'k'} // an LMDB key is never empty, whichever occurrence ends up last
+					}
 				default:
 					// stay inside the field's range: uint32 fields at level 0
 					// (versions) and 2 (KV.flags) take < 2^32, a conforming
